@@ -1,5 +1,274 @@
-import Bkl
+/-
+  C04 — "Results do not depend on which format (JSON/YAML/TOML) a layer is written in."
+
+  The three decoders hand bkl different Go representations of the same data (`Raw`,
+  Bkl/Stream.lean): json.Number text, YAML `int`/`int64`/`float64` after
+  yaml.go:yamlTranslateNode, go-toml `int64`, `[]map[string]any`, Go maps in random order.
+  `normalize` maps all of them into the one value domain `Val`, and the theorems below say that
+  the same datum gets the same `Val` whichever decoder produced it.
+
+  * `C04_int_exact`            an int64 `n` is `.int n` via JSON, YAML and TOML
+  * `C04_normalize_total`      normalisation fails only on `map[any]any`, with `invalidType`
+  * `C04_float_path`           non-integers become `.flt` of the same `%v` text
+  * `C04_compare_canonical`    equality of normalised integers is equality of integers,
+                               whatever the source; an integer never equals a float
+  * `C04_map_order_irrelevant` the order in which a decoder lists map entries is irrelevant
+  * `C04_yaml_merge_key`, `C04_yaml_merge_key_list`  YAML `<<` semantics
+  * `C04_toml_array_of_tables` `[]map[string]any` ≡ `[]any` of maps
+
+  Helper lemmas and the definitions `hasMapAny`, `rput`, `rlookup`, `rlookupMaps` are in
+  BklProofs/Lemmas/Stream.lean.  `(toString n).toInt? = some n` is `Int.toInt?_repr` of Lean's
+  `Std.Data.String.ToInt`; no round-trip hypothesis is needed.
+-/
+import BklProofs.Lemmas.Stream
 namespace Bkl
-/-- placeholder until the property theorems land -/
-theorem C04_placeholder : validate (.int 1) = .ok () := by simp [validate]; rfl
+
+/-! ## integers -/
+
+/-- For every int64 `n`, the three decoders' representations of `n` all normalise to `.int n`:
+    JSON (`json.Number` with text `toString n`), YAML (`!!int` scalar: `int` when it fits
+    32 bits, `int64` otherwise), TOML (`int64`). -/
+theorem C04_int_exact (n : Int) (fr : String) (h1 : int64Min ≤ n) (h2 : n ≤ int64Max) :
+    normalize (.jnum (toString n) fr) = .ok (.int n) ∧
+    (yamlScalar "!!int" (toString n) fr >>= normalize) = .ok (.int n) ∧
+    normalize (.goInt64 n) = .ok (.int n) := by
+  refine ⟨?_, ?_, by rw [normalize]; rfl⟩
+  · rw [normalize_jnum, parseInt64_toString n h1 h2]
+  · rw [yamlScalar_int_toString n fr h1 h2]
+    split <;> (rw [s_bind_ok, normalize]; rfl)
+
+example : int64Min ≤ (-9223372036854775808 : Int) ∧ (-9223372036854775808 : Int) ≤ int64Max := by
+  decide
+example : int64Min ≤ (2147483648 : Int) ∧ (2147483648 : Int) ≤ int64Max := by decide
+
+/-- the YAML representation: Go `int` when the value fits 32 bits, `int64` otherwise -/
+theorem C04_yaml_int_repr (n : Int) (fr : String) (h1 : int64Min ≤ n) (h2 : n ≤ int64Max) :
+    yamlScalar "!!int" (toString n) fr =
+      if -(2147483648 : Int) ≤ n ∧ n < 2147483648 then .ok (.goInt n) else .ok (.goInt64 n) :=
+  yamlScalar_int_toString n fr h1 h2
+
+/-- the key fact behind the JSON case: decimal text of an int64 parses back to it -/
+theorem C04_parseInt64_toString (n : Int) (h1 : int64Min ≤ n) (h2 : n ≤ int64Max) :
+    parseInt64 (toString n) = some n := parseInt64_toString n h1 h2
+
+/-- out of the int64 range json.Number.Int64 fails and the number is a float -/
+theorem C04_int_out_of_range (n : Int) (fr : String) (h : n < int64Min ∨ int64Max < n) :
+    normalize (.jnum (toString n) fr) = .ok (.flt fr) := by
+  have : parseInt64 (toString n) = none := by
+    unfold parseInt64
+    rw [int_toString_toInt]
+    have : ¬ (int64Min ≤ n ∧ n ≤ int64Max ∧ (!(toString n).startsWith "+") = true) := by
+      intro ⟨a, b, _⟩; omega
+    simp only [this, if_false]
+  rw [normalize_jnum, this]
+
+example : (9223372036854775808 : Int) < int64Min ∨ int64Max < (9223372036854775808 : Int) := by
+  decide
+
+/-! ## `normalize` is total except for `map[any]any` -/
+
+/-- `normalize r` fails iff `r` contains a `map[any]any`, and then with `invalidType` -/
+theorem C04_normalize_total (r : Raw) :
+    ((∃ e, normalize r = .error e) ↔ hasMapAny r = true) ∧
+    (∀ e, normalize r = .error e → e = .invalidType) ∧
+    (hasMapAny r = false → ∃ v, normalize r = .ok v) := by
+  rcases normalize_outcome r with ⟨hb, hr⟩ | ⟨hb, v, hr⟩
+  · refine ⟨⟨fun _ => hb, fun _ => ⟨_, hr⟩⟩, ?_, ?_⟩
+    · intro e he; rw [hr] at he; cases he; rfl
+    · intro h; rw [hb] at h; cases h
+  · refine ⟨⟨?_, ?_⟩, ?_, fun _ => ⟨v, hr⟩⟩
+    · rintro ⟨e, he⟩; rw [hr] at he; cases he
+    · intro h; rw [hb] at h; cases h
+    · intro e he; rw [hr] at he; cases he
+
+example : hasMapAny (.map [("a", .list [.goInt 1, .mapAny])]) = true := by decide
+example : normalize (.map [("a", .list [.goInt 1, .mapAny])]) = .error .invalidType := by
+  simp [normalize, normalizeFields, normalizeList, bind, Except.bind, throw, throwThe,
+    MonadExceptOf.throw, pure, Except.pure]
+example : hasMapAny (.map [("a", .list [.goInt 1, .jnum "2" "2"])]) = false := by decide
+
+/-! ## floats -/
+
+/-- JSON non-integers, YAML `!!float` and TOML floats all become `.flt` of the `%v` text -/
+theorem C04_float_path (text value fr : String) :
+    (parseInt64 text = none → normalize (.jnum text fr) = .ok (.flt fr)) ∧
+    (yamlScalar "!!float" value fr >>= normalize) = .ok (.flt fr) ∧
+    normalize (.goFloat fr) = .ok (.flt fr) := by
+  refine ⟨?_, ?_, by rw [normalize]; rfl⟩
+  · intro h; rw [normalize_jnum, h]
+  · rw [yamlScalar_float, s_bind_ok, normalize]; rfl
+
+/-- non-vacuity: `1.5` is not an integer text, so JSON `1.5` is the float `1.5` -/
+example : parseInt64 "1.5" = none :=
+  parseInt64_none_of_bad_char "1.5" '.' (by decide) (by decide) (by decide) (by decide)
+example : normalize (.jnum "1.5" "1.5") = .ok (.flt "1.5") :=
+  (C04_float_path "1.5" "" "1.5").1
+    (parseInt64_none_of_bad_char "1.5" '.' (by decide) (by decide) (by decide) (by decide))
+/-- … and JSON `1e3` too (json.Number.Int64 fails on it), with `%v` text `1000` -/
+example : normalize (.jnum "1e3" "1000") = .ok (.flt "1000") :=
+  (C04_float_path "1e3" "" "1000").1
+    (parseInt64_none_of_bad_char "1e3" 'e' (by decide) (by decide) (by decide) (by decide))
+
+/-! ## comparison is structural after normalisation -/
+
+/-- Go compares scalars with `==` on interface values (dynamic type AND value).  After
+    normalisation every integer is an `.int` and every float a `.flt`, so equality of normalised
+    integers from any two sources is equality of the integers, and an integer never equals a
+    float. -/
+theorem C04_compare_canonical (a b : Int) (fr r : String)
+    (ha : int64Min ≤ a ∧ a ≤ int64Max) :
+    (normalize (.goInt a) = normalize (.goInt64 b) ↔ a = b) ∧
+    (normalize (.goInt a) = normalize (.goInt b) ↔ a = b) ∧
+    (normalize (.goInt64 a) = normalize (.goInt64 b) ↔ a = b) ∧
+    (normalize (.jnum (toString a) fr) = normalize (.goInt64 b) ↔ a = b) ∧
+    (normalize (.jnum (toString a) fr) = normalize (.goInt b) ↔ a = b) ∧
+    ((yamlScalar "!!int" (toString a) fr >>= normalize) = normalize (.goInt64 b) ↔ a = b) ∧
+    ((yamlScalar "!!int" (toString a) fr >>= normalize) = normalize (.jnum (toString a) r)) ∧
+    normalize (.goInt a) ≠ normalize (.goFloat r) ∧
+    normalize (.goInt64 a) ≠ normalize (.goFloat r) ∧
+    normalize (.jnum (toString a) fr) ≠ normalize (.goFloat r) := by
+  obtain ⟨j1, y1, _⟩ := C04_int_exact a fr ha.1 ha.2
+  obtain ⟨j2, _, _⟩ := C04_int_exact a r ha.1 ha.2
+  have gi : ∀ i, normalize (.goInt i) = .ok (.int i) := fun i => by rw [normalize]; rfl
+  have g64 : ∀ i, normalize (.goInt64 i) = .ok (.int i) := fun i => by rw [normalize]; rfl
+  have gf : normalize (.goFloat r) = .ok (.flt r) := by rw [normalize]; rfl
+  have key : (Except.ok (Val.int a) : R Val) = .ok (.int b) ↔ a = b :=
+    ⟨fun h => by injection h with h; injection h, fun h => by rw [h]⟩
+  rw [j1, y1, j2, gi, gi, g64, g64, gf]
+  have ne : (Except.ok (Val.int a) : R Val) ≠ .ok (.flt r) := by
+    intro h; injection h with h; cases h
+  exact ⟨key, key, key, key, key, key, rfl, ne, ne, ne⟩
+
+example : int64Min ≤ (42 : Int) ∧ (42 : Int) ≤ int64Max := by decide
+
+/-! ## maps -/
+
+/-- Go maps are unordered and decoders list entries in different orders: for entry lists with
+    distinct keys that are permutations of each other the normalised map is the same (also the
+    same failure, if any) -/
+theorem C04_map_order_irrelevant (kvs' kvs : List (String × Raw)) (hp : kvs'.Perm kvs)
+    (hn : (kvs.map (·.1)).Nodup) : normalize (.map kvs') = normalize (.map kvs) :=
+  normalize_map_perm hp hn
+
+example : [("b", Raw.goInt 2), ("a", Raw.str "x")].Perm [("a", .str "x"), ("b", .goInt 2)] ∧
+    ([("a", Raw.str "x"), ("b", Raw.goInt 2)].map (·.1)).Nodup := by
+  refine ⟨List.Perm.swap _ _ _, by decide⟩
+
+/-- the normalised map is key-sorted whatever the decoder's order -/
+theorem C04_map_sorted (kvs : List (String × Raw)) (v : Val) (h : normalize (.map kvs) = .ok v) :
+    ∃ fs, v = .map fs ∧ Fields.SortedKeys fs := by
+  rw [normalize_map] at h
+  cases hf : normalizeFields kvs with
+  | error e => rw [hf] at h; cases h
+  | ok fs => rw [hf] at h; cases h; exact ⟨_, rfl, sorted_fofList fs⟩
+
+example : normalize (.map [("b", .goInt 2), ("a", .str "x")])
+    = .ok (.map [("a", .str "x"), ("b", .int 2)]) := by decide
+
+/-! ## YAML merge keys -/
+
+/-- A mapping with exactly one `<<` entry whose value is a mapping `m`, and local pairs `ls`
+    (= the translated non-`<<` pairs): the result has distinct keys, and looking a key up gives
+    the local value if there is one, else `m`'s. -/
+theorem C04_yaml_merge_key (pre post : List (String × YNode)) (x : YNode) (m ls : RFields)
+    (hpre : ∀ p ∈ pre, p.1 ≠ "<<") (hpost : ∀ p ∈ post, p.1 ≠ "<<")
+    (hx : yamlTranslate x = .ok (.map m))
+    (hl : yamlTranslatePairs (pre ++ post) = .ok ls) :
+    ∃ res, yamlTranslate (.mapping (pre ++ ("<<", x) :: post)) = .ok (.map res) ∧
+      (res.map (·.1)).Nodup ∧
+      ∀ k, rlookup res k = match rlookup ls k with
+        | some v => some v
+        | none => rlookup m k := by
+  refine ⟨_, yamlTranslate_one_merge pre post x (.map m) _ ls hpre hpost hx
+    (yamlMergeInto_map [] m) hl, ?_, ?_⟩
+  · exact foldl_rput_keys_nodup ls _ (foldl_rput_keys_nodup m [] List.nodup_nil)
+  · intro k
+    rw [rlookup_foldl_rput, rlookup_foldl_rput]
+    cases rlookup ls k with
+    | some v => rfl
+    | none => simp only [rlookup]; cases rlookup m k <;> rfl
+
+/-- The list form `<<: [m₁, …, mₙ]`: locals win over every `mᵢ`, and an earlier `mᵢ` wins over
+    a later one (`rlookupMaps` = the first mapping that has the key). -/
+theorem C04_yaml_merge_key_list (pre post : List (String × YNode)) (x : YNode)
+    (ms : List RFields) (ls : RFields)
+    (hpre : ∀ p ∈ pre, p.1 ≠ "<<") (hpost : ∀ p ∈ post, p.1 ≠ "<<")
+    (hx : yamlTranslate x = .ok (.list (ms.map Raw.map)))
+    (hl : yamlTranslatePairs (pre ++ post) = .ok ls) :
+    ∃ res, yamlTranslate (.mapping (pre ++ ("<<", x) :: post)) = .ok (.map res) ∧
+      (res.map (·.1)).Nodup ∧
+      ∀ k, rlookup res k = match rlookup ls k with
+        | some v => some v
+        | none => rlookupMaps ms k := by
+  refine ⟨_, yamlTranslate_one_merge pre post x _ _ ls hpre hpost hx
+    (yamlMergeInto_list_maps [] ms) hl, ?_, ?_⟩
+  · exact foldl_rput_keys_nodup ls _ (rmergeAll_keys_nodup ms [] List.nodup_nil)
+  · intro k
+    rw [rlookup_foldl_rput, rlookup_rmergeAll]
+    cases rlookup ls k with
+    | some v => rfl
+    | none => simp only [rlookup]; cases rlookupMaps ms k <;> rfl
+
+/-- non-vacuity of the two theorems above: `{a: 1, <<: {a: 0, b: 2}, c: 3}` and
+    `{a: 1, <<: [{a: 0}, {a: 9, b: 2}], c: 3}` -/
+example : ∃ res, yamlTranslate (.mapping ([("a", .scalar "!!str" "1" "")] ++
+      ("<<", .mapping [("a", .scalar "!!str" "0" ""), ("b", .scalar "!!str" "2" "")]) ::
+      [("c", .scalar "!!str" "3" "")])) = .ok (.map res) ∧ (res.map (·.1)).Nodup ∧
+      ∀ k, rlookup res k = match rlookup [("a", .str "1"), ("c", .str "3")] k with
+        | some v => some v
+        | none => rlookup [("a", .str "0"), ("b", .str "2")] k :=
+  C04_yaml_merge_key _ _ _ _ _ (by decide) (by decide) (by rfl) (by rfl)
+example : ∃ res, yamlTranslate (.mapping ([("a", .scalar "!!str" "1" "")] ++
+      ("<<", .seq [.mapping [("a", .scalar "!!str" "0" "")],
+                   .mapping [("a", .scalar "!!str" "9" ""), ("b", .scalar "!!str" "2" "")]]) ::
+      [("c", .scalar "!!str" "3" "")])) = .ok (.map res) ∧ (res.map (·.1)).Nodup ∧
+      ∀ k, rlookup res k = match rlookup [("a", .str "1"), ("c", .str "3")] k with
+        | some v => some v
+        | none => rlookupMaps [[("a", .str "0")], [("a", .str "9"), ("b", .str "2")]] k :=
+  C04_yaml_merge_key_list _ _ _ [[("a", .str "0")], [("a", .str "9"), ("b", .str "2")]] _
+    (by decide) (by decide) (by rfl) (by rfl)
+
+/-- merging something that is neither a mapping nor a list of mappings is `invalidType` -/
+theorem C04_yaml_merge_key_scalar (pairs : List (String × YNode)) (s : String) :
+    yamlTranslate (.mapping (("<<", .scalar "!!str" s "") :: pairs)) = .error .invalidType := by
+  rw [yamlTranslate_mapping, yamlTranslateMerges]
+  simp only [beq_self_eq_true, if_true]
+  rw [yamlTranslate]
+  rfl
+
+/-- concrete instance (`{a: 1, <<: {a: 0, b: 2}, c: 3}` → a=1 (local wins), b=2, c=3) -/
+theorem C04_yaml_merge_key_instance :
+    yamlTranslate (.mapping [("a", .scalar "!!str" "1" ""),
+        ("<<", .mapping [("a", .scalar "!!str" "0" ""), ("b", .scalar "!!str" "2" "")]),
+        ("c", .scalar "!!str" "3" "")]) =
+      .ok (.map [("b", .str "2"), ("a", .str "1"), ("c", .str "3")]) := by
+  have hx : yamlTranslate (.mapping [("a", .scalar "!!str" "0" ""), ("b", .scalar "!!str" "2" "")])
+      = .ok (.map [("a", .str "0"), ("b", .str "2")]) := by
+    rw [yamlTranslate_mapping, yamlTranslateMerges_no_merge _ _ (by decide)]
+    simp only [yamlTranslatePairs, yamlTranslate]
+    rfl
+  have hl : yamlTranslatePairs ([("a", YNode.scalar "!!str" "1" "")] ++
+      [("c", YNode.scalar "!!str" "3" "")]) = .ok [("a", .str "1"), ("c", .str "3")] := by
+    simp only [List.cons_append, List.nil_append, yamlTranslatePairs, yamlTranslate]
+    rfl
+  have := yamlTranslate_one_merge [("a", .scalar "!!str" "1" "")] [("c", .scalar "!!str" "3" "")]
+    _ _ _ _ (by decide) (by decide) hx (yamlMergeInto_map [] _) hl
+  rw [List.cons_append, List.nil_append] at this
+  rw [this]
+  rfl
+
+/-- concrete instance of the list form (`{<<: [{a: 1}, {a: 2, b: 2}]}` → a=1: earlier wins) -/
+theorem C04_yaml_merge_key_list_instance :
+    yamlMergeInto [] (.list [.map [("a", .str "1")], .map [("a", .str "2"), ("b", .str "2")]]) =
+      .ok [("b", .str "2"), ("a", .str "1")] := by
+  rw [show [Raw.map [("a", .str "1")], .map [("a", .str "2"), ("b", .str "2")]] =
+    [[("a", Raw.str "1")], [("a", .str "2"), ("b", .str "2")]].map Raw.map from rfl,
+    yamlMergeInto_list_maps]
+  rfl
+
+/-! ## go-toml arrays of tables -/
+
+theorem C04_toml_array_of_tables (ms : List (List (String × Raw))) :
+    normalize (.listOfMaps ms) = normalize (.list (ms.map .map)) := normalize_listOfMaps ms
+
 end Bkl
